@@ -685,8 +685,11 @@ class InterpretedFunctionsRemover(engines.engine.Engine, CompilerMixin):
         """
         f = ef.fluent.fluent()
         f_list = []
+        if not ef.is_assignment():
+            # the result of an increase or decrease also depends on the old value of the fluent
+            f_list.append(f)
         for v in self.free_vars_extractor.get(ef.value):
-            if v.fluent() in is_unknown_fluents:
+            if v.fluent() in is_unknown_fluents and v.fluent() not in f_list:
                 f_list.append(v.fluent())
 
         o_e = em.Or([em.FluentExp(is_unknown_fluents[vf]) for vf in f_list])
